@@ -117,6 +117,21 @@ func formatBearing(p gen.Ptr) bool {
 	return k == "url" || k == "email" || k == "authorizationUrl" || k == "tokenUrl"
 }
 
+// enumerated: members whose values the Swagger 2.0 schema enumerates (case sensitive)
+func enumerated(p gen.Ptr) bool {
+	if len(p) == 0 {
+		return false
+	}
+	if k, ok := p[len(p)-1].(string); ok {
+		return k == "in" || k == "type" || k == "collectionFormat" || k == "swagger"
+	}
+	if len(p) >= 2 {
+		k, _ := p[len(p)-2].(string)
+		return k == "schemes"
+	}
+	return false
+}
+
 // primerDoc is an accepted document unlike every generated one: a validator that has just validated it must not let
 // anything of it show in the next validation
 const primerDoc = `{"swagger":"2.0","info":{"title":"primer","version":"1"},"paths":{"/primer/{pid}":{"get":{"operationId":"primerGet","parameters":[{"name":"pid","in":"path","required":true,"type":"string"},{"name":"n","in":"query","type":"integer","default":3}],"responses":{"200":{"description":"ok","schema":{"$ref":"#/definitions/Primer"},"examples":{"application/json":{"p":"x"}}}}}}},"definitions":{"Primer":{"type":"object","properties":{"p":{"type":"string","default":"d"}}}}}`
@@ -398,7 +413,7 @@ func driveSpec(args []string) error {
 			// sampled tiers always keep the rare edits that only apply at a few pointers (next to an existing $ref)
 			var always, rest []gen.Edit
 			for _, e := range edits {
-				if e.Kind == "ref-xsibling" || e.Kind == "name-dotted" || (e.Kind == "blank" && formatBearing(e.At)) {
+				if e.Kind == "ref-xsibling" || e.Kind == "name-dotted" || (e.Kind == "blank" && formatBearing(e.At)) || (e.Kind == "case-flip" && enumerated(e.At)) {
 					always = append(always, e)
 				} else {
 					rest = append(rest, e)
